@@ -9,6 +9,7 @@ CONSTANTS
   Classes = {"ok", "rejectLater"}
   MaxBad = 2
   Emit = FALSE
+  EmitMod = 1
 INIT InitGraphs
 NEXT NextGraphs
 INVARIANTS TheoremsHold
